@@ -44,6 +44,9 @@ type Res struct {
 	V   any
 	St  Status
 	Why string
+	// Maybe: the value was emitted by its producer but the engine may not have received it (it was
+	// emitted while the run was already being shut down). Observed-world facts only.
+	Maybe bool
 }
 
 func worst(a, b Status) Status {
@@ -68,6 +71,8 @@ type StepFacts struct {
 	Why       string
 	// At is the decision number at which each "stage.output" was produced (observed facts only).
 	At map[string]int64
+	// Maybe marks outputs whose delivery to the engine is uncertain (observed facts only).
+	Maybe map[string]bool
 	// loops
 	Items   []any
 	ItemRes []*Facts
@@ -250,6 +255,8 @@ func toBool(v any) (bool, error) {
 
 func isWild(v any) bool { _, ok := v.(Wild); return ok }
 
+func isChoice(v any) bool { _, ok := v.(Choice); return ok }
+
 // Eval evaluates an expression over the facts known so far.
 func (f *Facts) Eval(e *ir.Expr) Res {
 	switch e.K {
@@ -262,28 +269,36 @@ func (f *Facts) Eval(e *ir.Expr) Res {
 		if st := worst(a.St, b.St); st != OK {
 			return Res{St: st, Why: a.Why + b.Why}
 		}
-		return evalOp(e.Op, a.V, b.V)
+		r := evalOp(e.Op, a.V, b.V)
+		r.Maybe = a.Maybe || b.Maybe
+		return r
 	case "call":
 		var args []any
 		st := OK
 		why := ""
+		maybe := false
 		for _, x := range e.Args {
 			r := f.Eval(x)
 			st = worst(st, r.St)
 			why += r.Why
+			maybe = maybe || r.Maybe
 			args = append(args, r.V)
 		}
 		if st != OK {
 			return Res{St: st, Why: why}
 		}
-		return evalCall(e.Op, args)
+		r := evalCall(e.Op, args)
+		r.Maybe = maybe
+		return r
 	case "obj":
 		out := map[string]any{}
 		st := OK
 		why := ""
 		var choiceKeys []string
+		maybe := false
 		for _, fl := range e.Fields {
 			r := f.Eval(fl.E)
+			maybe = maybe || r.Maybe
 			if r.St != OK {
 				st = worst(st, r.St)
 				why += fl.Name + ":" + r.Why + ";"
@@ -300,7 +315,7 @@ func (f *Facts) Eval(e *ir.Expr) Res {
 		if st != OK {
 			return Res{St: st, Why: why}
 		}
-		return Res{V: out}
+		return Res{V: out, Maybe: maybe}
 	case "list":
 		out := make([]any, 0, len(e.Items))
 		st := OK
@@ -358,6 +373,9 @@ func (f *Facts) Eval(e *ir.Expr) Res {
 			r := f.Eval(inner)
 			switch r.St {
 			case OK:
+				if r.Maybe {
+					return Res{V: Choice{[]any{r.V, Absent{}}}}
+				}
 				return r
 			case Missing:
 				return Res{V: Absent{}}
@@ -416,6 +434,7 @@ func (f *Facts) evalRef(path []any) Res {
 		return Res{St: EvalErr, Why: "empty path"}
 	}
 	var cur any
+	maybe := false
 	rest := path[1:]
 	switch path[0] {
 	case "input":
@@ -443,9 +462,15 @@ func (f *Facts) evalRef(path []any) Res {
 				}
 				return Res{St: Missing, Why: id + "." + stage + " not produced;"}
 			}
-			return Res{V: m}
+			for k := range m {
+				if sf.Maybe[stage+"."+k] {
+					maybe = true
+				}
+			}
+			return Res{V: m, Maybe: maybe}
 		}
 		out := path[3].(string)
+		maybe = sf.Maybe[stage+"."+out]
 		v, ok := sf.Out[stage+"."+out]
 		if !ok {
 			if sf.pendingStage(stage) {
@@ -460,7 +485,7 @@ func (f *Facts) evalRef(path []any) Res {
 	}
 	for _, p := range rest {
 		if isWild(cur) {
-			return Res{V: Wild{}}
+			return Res{V: Wild{}, Maybe: maybe}
 		}
 		switch k := p.(type) {
 		case string:
@@ -492,7 +517,7 @@ func (f *Facts) evalRef(path []any) Res {
 			cur = l[i]
 		}
 	}
-	return Res{V: cur}
+	return Res{V: cur, Maybe: maybe}
 }
 
 func (sf *StepFacts) pendingStage(stage string) bool {
@@ -619,14 +644,27 @@ func evalCall(fn string, args []any) Res {
 func SuccessOf(src string, in map[string]any) map[string]any {
 	out := map[string]any{}
 	a := in["a"]
-	if isWild(a) {
+	if isWild(a) || isChoice(a) {
 		out["a"] = Wild{}
 	} else {
 		out["a"] = a.(int64)*2 + 1
 	}
 	s := in["s"]
-	if isWild(s) || isWild(in["o"]) {
+	if isWild(s) || isWild(in["o"]) || isChoice(s) {
 		out["s"] = Wild{}
+	} else if ch, ok := in["o"].(Choice); ok {
+		var alts []any
+		for _, a := range ch.Alts {
+			switch x := a.(type) {
+			case Absent:
+				alts = append(alts, "<"+s.(string)+">")
+			case string:
+				alts = append(alts, "<"+s.(string)+">+"+x)
+			default:
+				alts = append(alts, Wild{})
+			}
+		}
+		out["s"] = Choice{alts}
 	} else {
 		str := "<" + s.(string) + ">"
 		if o, ok := in["o"]; ok && o != nil {
@@ -811,7 +849,7 @@ func PluginDefaults(in map[string]any) (map[string]any, error) {
 	out := map[string]any{}
 	get := func(k string) (any, bool) { v, ok := in[k]; return v, ok && v != nil }
 	if v, ok := get("a"); ok {
-		if isWild(v) {
+		if isWild(v) || isChoice(v) {
 			out["a"] = v
 		} else {
 			i, err := toInt(v)
@@ -825,7 +863,7 @@ func PluginDefaults(in map[string]any) (map[string]any, error) {
 	}
 	str := func(k, def string) error {
 		if v, ok := get(k); ok {
-			if isWild(v) {
+			if isWild(v) || isChoice(v) {
 				out[k] = v
 				return nil
 			}
@@ -858,7 +896,9 @@ func PluginDefaults(in map[string]any) (map[string]any, error) {
 		out["dur"] = int64(0)
 	}
 	if v, ok := get("o"); ok {
-		if isWild(v) {
+		if _, abs := v.(Absent); abs {
+			// optional and not present
+		} else if isWild(v) || isChoice(v) {
 			out["o"] = v
 		} else {
 			s, err := toStr(v)
@@ -869,7 +909,7 @@ func PluginDefaults(in map[string]any) (map[string]any, error) {
 		}
 	}
 	if v, ok := get("l"); ok {
-		if isWild(v) {
+		if isWild(v) || isChoice(v) {
 			out["l"] = v
 		} else {
 			l, ok := v.([]any)
